@@ -144,6 +144,9 @@ func Main(id, level, rule string, body func(r *Run)) {
 	r.finish()
 }
 
+// ChildPhase is the Parallel phase this process is a worker of ("" in the parent).
+func (r *Run) ChildPhase() string { return r.childPhase }
+
 func (r *Run) Quick() bool    { return r.Tier == "quick" }
 func (r *Run) Thorough() bool { return r.Tier == "thorough" }
 
